@@ -59,6 +59,8 @@ type d6Ctx struct {
 	busy  map[*ssa.Function]bool
 	nrep  int
 	nerr  int
+	nrem  int
+	own   map[string]bool
 }
 
 func isErrNotExistCond(cond ssa.Value) bool {
@@ -462,6 +464,57 @@ func (c *d6Ctx) report(fn *ssa.Function, entryMust, entryMay world.Facts, depth 
 			}
 		}
 	}
+	// (g) nothing of an earlier snapshot is removed before the new manifest is in place: a removal
+	// (os.Remove / os.RemoveAll / os.Truncate, or a rename that moves something away) that can execute
+	// while the manifest still names the previous snapshot must target a temporary file or a path
+	// built only from what names THIS attempt's state file
+	for _, e := range inf.events {
+		var target ssa.Value
+		switch e.op {
+		case "os.Remove", "os.RemoveAll", "os.Truncate":
+			target = e.in.Call.Args[0]
+		case "os.Rename":
+			if e.kind == "manifest" || e.src == "manifest-tmp" || e.src == "state-tmp" {
+				continue
+			}
+			target = e.in.Call.Args[0]
+		default:
+			continue
+		}
+		if e.kind == "manifest" {
+			continue // decided by (a)/(b)
+		}
+		c.nrem++
+		key := fmt.Sprintf("%s|g:removal-after-publish:%s#%d", top, e.op, c.nrem)
+		f := world.FactsAt(must, e.in, gen, nil)
+		if f&d6MREP != 0 {
+			r.OK(key, w.InstrPos(e.in), "removal happens only after the new manifest has been put in place"+where)
+			continue
+		}
+		k := e.kind
+		if e.op == "os.Rename" {
+			k = e.src
+		}
+		if k == "manifest-tmp" || k == "state-tmp" {
+			r.OK(key, w.InstrPos(e.in), "removes a temporary file of the snapshot writer"+where)
+			continue
+		}
+		own := c.newStateLeaves()
+		lv := map[string]bool{}
+		pathLeaves(target, 0, lv)
+		foreign := []string{}
+		for l := range lv {
+			if !own[l] {
+				foreign = append(foreign, l)
+			}
+		}
+		sort.Strings(foreign)
+		if len(lv) > 0 && len(foreign) == 0 {
+			r.OK(key, w.InstrPos(e.in), "removes only what this attempt itself created (the path is built from the values that name the new state file)"+where)
+			continue
+		}
+		r.Fail(key, w.InstrPos(e.in), fmt.Sprintf("%s can delete files of the snapshot directory before the manifest of the new snapshot is in place (the path depends on %s, which does not name this attempt's own files)%s: a crash or a failure between this removal and the manifest rename leaves a manifest that names a snapshot which is no longer on disk - the last good snapshot is lost and start-up restore finds nothing", e.op, strings.Join(foreign, ", "), where))
+	}
 	if fn == c.top {
 		for _, ret := range world.Returns(fn) {
 			rv := world.RetVals(ret)
@@ -576,5 +629,101 @@ func ruleD6(w *world.World, r *report.RuleResult) {
 		r.OK(key, w.Pos(rs.Pos()), fmt.Sprintf("writer and reader build the same paths: manifest %v, state %v", wm, wst))
 	} else {
 		r.Fail(key, w.Pos(rs.Pos()), fmt.Sprintf("TakeSnapshot and Restore build different paths: writer manifest %v state %v; reader manifest %v state %v — a snapshot that was written cannot be found again", wm, wst, rm, rst))
+	}
+}
+
+
+// newStateLeaves: the non-constant values from which the path of the state file written by this
+// attempt is built (its directory field, the timestamp of this attempt, ...).
+func (c *d6Ctx) newStateLeaves() map[string]bool {
+	if c.own != nil {
+		return c.own
+	}
+	c.own = map[string]bool{}
+	for _, inf := range c.infos {
+		for _, e := range inf.events {
+			if e.kind != "state" {
+				continue
+			}
+			switch e.op {
+			case "os.Create", "os.WriteFile":
+				pathLeaves(e.in.Call.Args[0], 0, c.own)
+			case "os.OpenFile":
+				if fl, ok := world.ConstInt(e.in.Call.Args[1]); !ok || fl&0x3 != 0 {
+					pathLeaves(e.in.Call.Args[0], 0, c.own)
+				}
+			}
+		}
+	}
+	return c.own
+}
+
+// pathLeaves collects the non-constant values a path expression is built from: field loads (by
+// field), calls other than the string builders (by identity), unbound parameters.
+func pathLeaves(v ssa.Value, depth int, out map[string]bool) {
+	if depth > 10 || v == nil {
+		return
+	}
+	switch x := v.(type) {
+	case *ssa.Const:
+	case *ssa.Parameter:
+		if len(constParamBind[x]) == 0 {
+			out["parameter "+x.Name()+" of "+x.Parent().Name()] = true
+		}
+		for _, a := range constParamBind[x] {
+			pathLeaves(a, depth+1, out)
+		}
+	case *ssa.Call:
+		f := x.Call.StaticCallee()
+		if f != nil {
+			switch n := f.String(); {
+			case n == "path.Join", n == "path/filepath.Join", n == "fmt.Sprintf", n == "fmt.Sprint", strings.HasPrefix(n, "strconv.Format"), n == "strconv.Itoa":
+				for _, a := range x.Call.Args {
+					pathLeaves(a, depth+1, out)
+				}
+				return
+			}
+		}
+		out[fmt.Sprintf("the result of %s (%p)", world.CalleeName(x), x)] = true
+	case *ssa.Slice:
+		pathLeaves(x.X, depth+1, out)
+	case *ssa.Alloc:
+		for _, r := range *x.Referrers() {
+			switch y := r.(type) {
+			case *ssa.IndexAddr:
+				for _, r2 := range *y.Referrers() {
+					if st, ok := r2.(*ssa.Store); ok {
+						pathLeaves(st.Val, depth+1, out)
+					}
+				}
+			case *ssa.Store:
+				if y.Addr == x {
+					pathLeaves(y.Val, depth+1, out)
+				}
+			}
+		}
+	case *ssa.Phi:
+		for _, e := range x.Edges {
+			pathLeaves(e, depth+1, out)
+		}
+	case *ssa.MakeInterface:
+		pathLeaves(x.X, depth+1, out)
+	case *ssa.ChangeType:
+		pathLeaves(x.X, depth+1, out)
+	case *ssa.Convert:
+		pathLeaves(x.X, depth+1, out)
+	case *ssa.UnOp:
+		if x.Op == token.MUL {
+			if fa, ok := x.X.(*ssa.FieldAddr); ok {
+				out["field "+world.FieldName(fa)] = true
+				return
+			}
+			pathLeaves(x.X, depth+1, out)
+		}
+	case *ssa.BinOp:
+		pathLeaves(x.X, depth+1, out)
+		pathLeaves(x.Y, depth+1, out)
+	default:
+		out[fmt.Sprintf("%s (%T)", v.Name(), v)] = true
 	}
 }
